@@ -561,7 +561,7 @@ func ruleOrder(c *Ctx) {
 	// replay order: the data file id list is sorted before it is returned/used
 	open := c.P.MustFunc("Open")
 	ns := 0
-	for _, f := range c.P.ModCone(open) {
+	for _, f := range c.P.ModCone(open, c.P.MustFunc("(*DB).Merge")) {
 		// functions returning []int that call ioutil.ReadDir
 		hasReadDir := false
 		var sortCalls []ssa.Instruction
@@ -586,6 +586,44 @@ func ruleOrder(c *Ctx) {
 					ri = i
 				}
 			}
+		}
+		if hasReadDir && ri < 0 {
+			// the listing is consumed in place (no []int result): every element access of an []int in this
+			// function that the directory listing can reach has to come after an ascending sort
+			var rd ssa.Instruction
+			calls(f, func(ci ssa.CallInstruction) {
+				if cal := ci.Common().StaticCallee(); cal != nil && (cal.String() == "io/ioutil.ReadDir" || cal.String() == "os.ReadDir") && rd == nil {
+					rd = ci
+				}
+			})
+			k := 0
+			instrs(f, func(in ssa.Instruction) {
+				ia, ok := in.(*ssa.IndexAddr)
+				if !ok || k > 0 {
+					return
+				}
+				sl, ok := ia.X.Type().Underlying().(*types.Slice)
+				if !ok {
+					return
+				}
+				if b, ok := sl.Elem().Underlying().(*types.Basic); !ok || b.Kind() != types.Int {
+					return
+				}
+				barrier := func(x ssa.Instruction) bool {
+					for _, s := range sortCalls {
+						if s == x {
+							return true
+						}
+					}
+					return false
+				}
+				if p := findPath(f, rd, func(x ssa.Instruction) bool { return x == in }, barrier, nil); p != nil {
+					k++
+					ns++
+					c.touch(f)
+					c.bad(fnName(f), "file ids listed from the directory are sorted before they are used", c.P.ipos(in), "segment ids read from the directory are used in listing order (file-name order: 0, 1, 10, 11, 2 ...), not ascending by id", c.witnessOf(p)...)
+				}
+			})
 		}
 		if !hasReadDir || ri < 0 {
 			continue
